@@ -263,17 +263,6 @@ theorem termWeights_ok_iff_functional (qts : List (K × Nat)) :
   · intro h
     exact ⟨fun q _ l' hl' => by simp [lookup] at hl', h⟩
 
-/-- scoring slots of the plan: (leaf, term keys) of every (group, field) that scores -/
-def slots (keysOf : κ → κ → Exp → List K) (groups : List (Group κ)) : List (Nat × List K) :=
-  groups.flatMap fun g =>
-    if g.score then
-      g.fields.filterMap fun s => (targetLeaf g s).map fun l => (l, keysOf s.field g.term g.exp)
-    else []
-
-/-- no term key is produced by two scoring slots that carry different leaves -/
-def slotsDisjoint (sl : List (Nat × List K)) : Bool :=
-  sl.all fun a => sl.all fun b => a.1 == b.1 || a.2.all fun k => !b.2.contains k
-
 omit [DecidableEq K] in
 theorem mem_slots (keysOf : κ → κ → Exp → List K) (groups : List (Group κ)) (l : Nat) (ks : List K) :
     (l, ks) ∈ slots keysOf groups ↔
